@@ -135,6 +135,7 @@ func c20InstallTaps() func() {
 		if code == consts.ReloadBusy {
 			e.busyWrites.Add(1)
 		}
+		c20Perturb(e) // the real implementation is file I/O: a natural suspension point
 		return nil
 	}
 	getRunSignalProgress = func() (byte, string, error) {
@@ -143,11 +144,13 @@ func c20InstallTaps() func() {
 			return 0, "", os.ErrNotExist
 		}
 		e.mu.Lock()
-		defer e.mu.Unlock()
-		if !e.progSet {
+		set, code, msg := e.progSet, e.progCode, e.progMsg
+		e.mu.Unlock()
+		c20Perturb(e) // file I/O in production: the caller may be descheduled after reading
+		if !set {
 			return 0, "", os.ErrNotExist
 		}
-		return e.progCode, e.progMsg, nil
+		return code, msg, nil
 	}
 	beginReloadProxyFailureSuppression = func() {
 		oldBegin()
@@ -206,18 +209,7 @@ func c20InstallTaps() func() {
 			} else {
 				e.hookRelease.Add(1)
 			}
-			x := (e.hookCtr.Add(1) * 0x9e3779b97f4a7c15) >> 58 // 0..63, fixed sequence
-			switch {
-			case x < 40:
-			case x < 52:
-				runtime.Gosched()
-			case x < 60:
-				for i := uint64(0); i < x; i++ {
-					runtime.Gosched()
-				}
-			default:
-				time.Sleep(time.Duration(10+x) * time.Microsecond)
-			}
+			c20Perturb(e)
 		}
 	}
 	verifYieldHook.Store(&hook)
@@ -226,6 +218,22 @@ func c20InstallTaps() func() {
 		setRunSignalProgress, getRunSignalProgress = oldSet, oldGet
 		beginReloadProxyFailureSuppression, endReloadProxyFailureSuppression = oldBegin, oldEnd
 		c20Cur.Store(nil)
+	}
+}
+
+// c20Perturb yields/sleeps by a fixed pseudo-random sequence at suspension points.
+func c20Perturb(e *c20Env) {
+	x := (e.hookCtr.Add(1) * 0x9e3779b97f4a7c15) >> 58 // 0..63, fixed sequence
+	switch {
+	case x < 40:
+	case x < 52:
+		runtime.Gosched()
+	case x < 60:
+		for i := uint64(0); i < x; i++ {
+			runtime.Gosched()
+		}
+	default:
+		time.Sleep(time.Duration(10+x) * time.Microsecond)
 	}
 }
 
